@@ -597,7 +597,6 @@ func (c *Ctx) runKeepFilter(rule string, pkgShort, ifaceName, method, filterFiel
 		key := fmt.Sprintf("%s.%s.%s consults %s", pkgShort, n, method, filterField)
 		// edges that establish "filter absent" or "filter said keep-able (true)"
 		type edge struct{ from, to *ssa.BasicBlock }
-		allowed := map[edge]bool{}
 		isFilterLoad := func(v ssa.Value) bool {
 			u, ok := v.(*ssa.UnOp)
 			if !ok || u.Op != token.MUL {
@@ -606,60 +605,108 @@ func (c *Ctx) runKeepFilter(rule string, pkgShort, ifaceName, method, filterFiel
 			fa, ok := u.X.(*ssa.FieldAddr)
 			return ok && fieldOf(fa) != nil && fieldOf(fa).Name() == filterField
 		}
-		for _, b := range fn.Blocks {
-			if len(b.Instrs) == 0 {
-				continue
-			}
-			ifi, ok := b.Instrs[len(b.Instrs)-1].(*ssa.If)
-			if !ok || len(b.Succs) != 2 {
-				continue
-			}
-			cond, neg := ifi.Cond, false
-			if un, ok := cond.(*ssa.UnOp); ok && un.Op == token.NOT {
-				cond, neg = un.X, true
-			}
-			if be, ok := cond.(*ssa.BinOp); ok && (be.Op == token.NEQ || be.Op == token.EQL) {
-				if (isFilterLoad(be.X) && isNilConst(be.Y)) || (isFilterLoad(be.Y) && isNilConst(be.X)) {
-					nilEdge := 1 // != nil false
-					if be.Op == token.EQL {
-						nilEdge = 0
+		// analyse(f): does f consult the filter, and where can it return
+		// something other than false without having passed an allowed edge?
+		// A true answer of a predicate helper that itself passes this analysis
+		// (passesFilter() = FilterFunc == nil || FilterFunc(..)) is an allowed edge.
+		var analyse func(f *ssa.Function, depth int) (consults bool, bad string)
+		analyse = func(f *ssa.Function, depth int) (bool, string) {
+			allowed := map[edge]bool{}
+			for _, b := range f.Blocks {
+				if len(b.Instrs) == 0 {
+					continue
+				}
+				ifi, ok := b.Instrs[len(b.Instrs)-1].(*ssa.If)
+				if !ok || len(b.Succs) != 2 {
+					continue
+				}
+				cond, neg := ifi.Cond, false
+				if un, ok := cond.(*ssa.UnOp); ok && un.Op == token.NOT {
+					cond, neg = un.X, true
+				}
+				if be, ok := cond.(*ssa.BinOp); ok && (be.Op == token.NEQ || be.Op == token.EQL) {
+					if (isFilterLoad(be.X) && isNilConst(be.Y)) || (isFilterLoad(be.Y) && isNilConst(be.X)) {
+						nilEdge := 1 // != nil false
+						if be.Op == token.EQL {
+							nilEdge = 0
+						}
+						if neg {
+							nilEdge = 1 - nilEdge
+						}
+						allowed[edge{b, b.Succs[nilEdge]}] = true
 					}
+				}
+				if call, ok := cond.(*ssa.Call); ok {
+					trueEdge := 0
 					if neg {
-						nilEdge = 1 - nilEdge
+						trueEdge = 1
 					}
-					allowed[edge{b, b.Succs[nilEdge]}] = true
+					if isFilterLoad(call.Call.Value) {
+						allowed[edge{b, b.Succs[trueEdge]}] = true
+					} else if h := call.Call.StaticCallee(); h != nil && h.Blocks != nil && h.Pkg == f.Pkg && depth < 2 && h != f {
+						if isBool(h.Signature.Results()) {
+							if hc, hbad := analyse(h, depth+1); hc && hbad == "" {
+								allowed[edge{b, b.Succs[trueEdge]}] = true
+							}
+						}
+					}
 				}
 			}
-			if call, ok := cond.(*ssa.Call); ok && isFilterLoad(call.Call.Value) {
-				trueEdge := 0
-				if neg {
-					trueEdge = 1
+			if len(allowed) == 0 {
+				return false, ""
+			}
+			bad := ""
+			var rets []*ssa.Return
+			seen := map[*ssa.BasicBlock]bool{}
+			stack := []*ssa.BasicBlock{f.Blocks[0]}
+			for len(stack) > 0 {
+				b := stack[len(stack)-1]
+				stack = stack[:len(stack)-1]
+				if seen[b] {
+					continue
 				}
-				allowed[edge{b, b.Succs[trueEdge]}] = true
+				seen[b] = true
+				if ret, ok := b.Instrs[len(b.Instrs)-1].(*ssa.Return); ok && len(ret.Results) == 1 {
+					rets = append(rets, ret)
+				}
+				for _, s := range b.Succs {
+					if !allowed[edge{b, s}] {
+						stack = append(stack, s)
+					}
+				}
 			}
-		}
-		if len(allowed) == 0 {
-			c.bad(rule, key, fn.Pos(), "the criterion never tests the keep-filter: vertices the caller asked to keep can be removed")
-			continue
-		}
-		bad := ""
-		seen := map[*ssa.BasicBlock]bool{}
-		stack := []*ssa.BasicBlock{fn.Blocks[0]}
-		for len(stack) > 0 {
-			b := stack[len(stack)-1]
-			stack = stack[:len(stack)-1]
-			if seen[b] {
-				continue
+			// a reachable return may hand out false, the filter's own answer, or a
+			// merge whose other values arrive over allowed edges only
+			isFilterAnswer := func(v ssa.Value) bool {
+				call, ok := v.(*ssa.Call)
+				return ok && isFilterLoad(call.Call.Value)
 			}
-			seen[b] = true
-			if ret, ok := b.Instrs[len(b.Instrs)-1].(*ssa.Return); ok && len(ret.Results) == 1 && !isConstFalse(ret.Results[0]) {
+			for _, ret := range rets {
+				r := ret.Results[0]
+				if isConstFalse(r) || isFilterAnswer(r) {
+					continue
+				}
+				if phi, isPhi := r.(*ssa.Phi); isPhi && phi.Block() == ret.Block() {
+					okAll := true
+					for i, e := range phi.Edges {
+						p := phi.Block().Preds[i]
+						if isConstFalse(e) || isFilterAnswer(e) || !seen[p] || allowed[edge{p, phi.Block()}] {
+							continue
+						}
+						okAll = false
+					}
+					if okAll {
+						continue
+					}
+				}
 				bad = c.pos(ret.Pos())
 			}
-			for _, s := range b.Succs {
-				if !allowed[edge{b, s}] {
-					stack = append(stack, s)
-				}
-			}
+			return true, bad
+		}
+		consults, bad := analyse(fn, 0)
+		if !consults {
+			c.bad(rule, key, fn.Pos(), "the criterion never tests the keep-filter: vertices the caller asked to keep can be removed")
+			continue
 		}
 		if bad == "" {
 			c.ok(rule, key, fn.Pos(), "every result other than false lies behind the 'filter absent' or 'filter returned true' edge")
@@ -888,4 +935,13 @@ func (c *Ctx) runRangeSplit(rule string, pkgShort, typeName, method string) {
 	default:
 		c.ok(rule, key, a.st.Pos(), "one value is the upper bound of the first half and the lower bound of the second, on the same axis")
 	}
+}
+
+// isBool: a single boolean result.
+func isBool(res *types.Tuple) bool {
+	if res.Len() != 1 {
+		return false
+	}
+	b, ok := res.At(0).Type().Underlying().(*types.Basic)
+	return ok && b.Info()&types.IsBoolean != 0
 }
